@@ -61,6 +61,18 @@ theorem C09_make_room_waits_only_when_blocked (x : Vars) (v : View) (p : Rain.Sc
           · rename_i h; simp [hb, h]
           · split at hw <;> simp [waits] at hw
 
+/-- **A recorded background error ends the call at the next iteration**, whatever else the
+iteration reads and whatever the loop variables are: the error test is the FIRST branch of the
+chain, and every wake-up from a wait starts a new iteration (`run` feeds the next view to `branch`).
+A writer that waits for a flush therefore comes back with the error once the flush has failed and
+the worker has notified - the seeded change C09i (inner `while condition { wait }` loops that never
+return to the head of the chain) is a different loop, and the scenario
+`writer-waits-for-failing-flush` exhibits the hang on the real code. -/
+theorem C09_make_room_reports_the_sticky_error (x : Vars) (v : View) (vs : List View)
+    (hb : v.bad = true) : branch x v = .errBad ∧ run x (v :: vs) = [.errBad] := by
+  have h : branch x v = .errBad := by simp [branch, hb]
+  exact ⟨h, by simp [run, h, returns]⟩
+
 /-- **A forced call never returns Ok without rotating**: the flush `compact_range` asks for really
 happens (or an error is returned). -/
 theorem C09_forced_call_rotates_before_ok (views : List View)
